@@ -96,7 +96,7 @@ class C04(Prop):
 
     def cases(self, rng, tier):
         out = []
-        n = 4000 if tier == "thorough" else 450
+        n = 30000 if tier == "thorough" else 450
         for _ in range(n):
             nf = rng.randint(0, 12)
             names = rng.sample(["Name", "Count", "Ratio", "Flag", "When", "Tags", "Nums", "Meta", "Alpha", "Beta", "Gamma", "Delta", "X", "Yy"], nf)
